@@ -27,32 +27,50 @@ void uk_cover(const char *label){ (void)label; }
 void uk_note_text(const char *label, const void *p, long n, int es){ long i; fprintf(stderr, "text %s=\"", label); for (i = 0; i < n; i++){ unsigned long c = es == 1 ? ((const unsigned char *)p)[i] : ((const uint32_t *)p)[i]; if (c >= 32 && c < 127) fputc((int)c, stderr); else fprintf(stderr, "\\x%02lx", c); } fprintf(stderr, "\"\n"); }
 void uk_note(const char *label, long v){ fprintf(stderr, "note %s=%ld\n", label, v); }
 
-#define MAXBLK 4096
-static void *blk[MAXBLK]; static int nblk;
-void *uk_malloc(size_t n){ void *p = malloc(n ? n : 1); int i; if (!p) fail("SETUP", "malloc"); for (i = 0; i < nblk; i++) if (!blk[i]){ blk[i] = p; break; } if (i == nblk){ if (nblk == MAXBLK) fail("SETUP", "too many blocks"); blk[nblk++] = p; } live++; return p; }
-void uk_free(void *p){ int i; if (!p) return; for (i = 0; i < nblk; i++) if (blk[i] == p){ blk[i] = 0; live--; free(p); return; } fail("HEAP", "free of a pointer that is not a live block of this manager"); }
+/* Blocks and buffers are page-fenced (one mapping each, the object ends at the last byte before a PROT_NONE guard page), so
+ * that an over-read by one character faults and uk_readonly can make the object really read-only (mprotect): a store to a
+ * read-only input faults even when it stores the value already there.  Freed blocks are unmapped (use after free faults). */
+#include <sys/mman.h>
+#include <unistd.h>
+#define MAXBLK 8192
+static struct { char *base; size_t maplen; char *ptr; size_t n; int heap; } blk[MAXBLK]; static int nblk;
+static void *fenced(size_t n, int heap){
+  size_t pg = (size_t)sysconf(_SC_PAGESIZE), data = ((n ? n : 1) + pg - 1) / pg * pg, align = heap ? 16 : (n % 8 == 0 ? 8 : n % 4 == 0 ? 4 : 1), used;
+  char *base = mmap(0, data + pg, PROT_READ | PROT_WRITE, MAP_PRIVATE | MAP_ANONYMOUS, -1, 0), *p; int i;
+  if (base == MAP_FAILED) fail("SETUP", "mmap");
+  mprotect(base + data, pg, PROT_NONE);
+  used = (n + align - 1) / align * align; p = base + data - used;       /* heap blocks are 16-aligned like malloc; buffers end exactly at the fence */
+  for (i = 0; i < nblk; i++) if (!blk[i].base) break;
+  if (i == nblk){ if (nblk == MAXBLK) fail("SETUP", "too many blocks"); nblk++; }
+  blk[i].base = base; blk[i].maplen = data + pg; blk[i].ptr = p; blk[i].n = n; blk[i].heap = heap;
+  return p;
+}
+static int find_blk(const void *p){ int i; for (i = 0; i < nblk; i++) if (blk[i].base && (const char *)p >= blk[i].ptr && (const char *)p < blk[i].ptr + (blk[i].n ? blk[i].n : 1)) return i; return -1; }
+void *uk_malloc(size_t n){ live++; return fenced(n, 1); }
+void uk_free(void *p){ int i; if (!p) return; i = find_blk(p); if (i < 0 || !blk[i].heap || blk[i].ptr != (char *)p) fail("HEAP", "free of a pointer that is not the base of a live block of this manager"); live--; munmap(blk[i].base, blk[i].maplen); blk[i].base = 0; }
 long uk_live(void){ return live; }
 long uk_live_libc(void){ return 0; }
 long uk_libc_calls(void){ return libc_calls_dummy; }
-void *uk_buf(size_t n, const char *name){ void *p = malloc(n ? n : 1); (void)name; if (!p) fail("SETUP", "malloc"); memset(p, 0, n); return p; }
+void *uk_buf(size_t n, const char *name){ void *p = fenced(n, 0); (void)name; memset(p, 0, n); return p; }
+static void protect(const void *p, int prot){ int i = find_blk(p); if (i >= 0){ size_t pg = (size_t)sysconf(_SC_PAGESIZE); mprotect(blk[i].base, blk[i].maplen - pg, prot); } }
 
 #define MAXRO 256
 static struct { const void *p; size_t n; unsigned char *snap; int kind; } ro[MAXRO]; static int nro;
 static void ro_check(int i){ if (ro[i].snap && memcmp(ro[i].p, ro[i].snap, ro[i].n) != 0) fail("MEM", ro[i].kind ? "store beyond the capacity limit" : "store to read-only object"); }
 static void ro_check_all(void){ int i; for (i = 0; i < nro; i++) if (ro[i].p) ro_check(i); }
-void uk_readonly(const void *p, size_t n){ static int reg; if (!reg){ atexit(ro_check_all); reg = 1; } if (!p || !n) return; if (nro == MAXRO) return; ro[nro].p = p; ro[nro].n = n; ro[nro].snap = malloc(n); memcpy(ro[nro].snap, p, n); ro[nro].kind = 0; nro++; }
-void uk_writable(const void *p){ int i; for (i = 0; i < nro; i++) if (ro[i].p == p && ro[i].kind == 0){ ro_check(i); free(ro[i].snap); ro[i].p = 0; ro[i].snap = 0; } }
-void uk_kill(const void *p, size_t n){ if (p && n) memset((void *)p, 0xA5, n); }   /* scribble: later reads see garbage and output comparisons fail */
+void uk_readonly(const void *p, size_t n){ static int reg; if (!reg){ atexit(ro_check_all); reg = 1; } if (!p || !n) return; protect(p, PROT_READ); if (nro == MAXRO) return; ro[nro].p = p; ro[nro].n = n; ro[nro].snap = malloc(n); memcpy(ro[nro].snap, p, n); ro[nro].kind = 0; nro++; }
+void uk_writable(const void *p){ int i; protect(p, PROT_READ | PROT_WRITE); for (i = 0; i < nro; i++) if (ro[i].p == p && ro[i].kind == 0){ ro_check(i); free(ro[i].snap); ro[i].p = 0; ro[i].snap = 0; } }
+void uk_kill(const void *p, size_t n){ int i = find_blk(p); (void)n; if (i >= 0){ size_t pg = (size_t)sysconf(_SC_PAGESIZE); mprotect(blk[i].base, blk[i].maplen - pg, PROT_NONE); } else if (p && n) memset((void *)p, 0xA5, n); }   /* any later access faults */
 void uk_watch(const void *p, size_t nbytes){ (void)p; (void)nbytes; }
-static size_t buf_total(const void *p){ (void)p; return 0; }
 void uk_limit(const void *p, long nelem, int elsize){
-  /* snapshot everything at and beyond the limit up to the malloc'd size; compared at uk_unlimit */
-  size_t total = __builtin_object_size(p, 0); (void)total; (void)buf_total;
-  { extern size_t malloc_usable_size(void *); size_t sz = malloc_usable_size((void *)p); long lim = nelem < 0 ? 0 : nelem;
-    if ((size_t)lim * (size_t)elsize >= sz) return;
-    if (nro == MAXRO) return;
-    ro[nro].p = (const char *)p + (size_t)lim * (size_t)elsize; ro[nro].n = sz - (size_t)lim * (size_t)elsize; ro[nro].snap = malloc(ro[nro].n);
-    memcpy(ro[nro].snap, ro[nro].p, ro[nro].n); ro[nro].kind = 1; nro++; }
+  /* snapshot everything at and beyond the limit up to the end of the buffer; compared at uk_unlimit */
+  int i = find_blk(p); size_t sz, lim = nelem < 0 ? 0 : (size_t)nelem;
+  if (i < 0) return;
+  sz = blk[i].n - (size_t)((const char *)p - blk[i].ptr);
+  if (lim * (size_t)elsize >= sz) return;
+  if (nro == MAXRO) return;
+  ro[nro].p = (const char *)p + lim * (size_t)elsize; ro[nro].n = sz - lim * (size_t)elsize; ro[nro].snap = malloc(ro[nro].n);
+  memcpy(ro[nro].snap, ro[nro].p, ro[nro].n); ro[nro].kind = 1; nro++;
 }
 void uk_unlimit(const void *p){ int i; for (i = 0; i < nro; i++) if (ro[i].p && ro[i].kind == 1 && (const char *)ro[i].p >= (const char *)p){ ro_check(i); free(ro[i].snap); ro[i].p = 0; ro[i].snap = 0; } }
 int  uk_is_heap(const void *p){ (void)p; return 1; }
